@@ -182,8 +182,47 @@ fn gen_c01(rng: &mut Prng, seed: u64, thorough: bool) -> Trace {
         }
         msg += 1;
     }
+    // prove - mutate - prove again: the same member on the same node, with membership changes of every API shape
+    // in between (single write, range, removal, batch removal of several low positions)
+    {
+        let member = rng.usize_below(members.len());
+        let lim = limit_u64(&members[member]);
+        let node = 0usize;
+        let taken: std::collections::BTreeSet<usize> = members.iter().map(|m| m.index).collect();
+        let low: Vec<usize> = (2..40usize).filter(|i| !taken.contains(i)).collect();
+        let pre = log.len();
+        log.push(LogEv::Range { start: 0, values: vec![] });
+        log.pop();
+        // fillers at low positions (so that batch removals are expressible at the byte level), then removals
+        let a = low[rng.usize_below(low.len())];
+        let b = low[rng.usize_below(low.len())];
+        let c = low[rng.usize_below(low.len())];
+        log.push(LogEv::Set { index: a, value: fr_from_le(&rng.bytes(32)) });
+        log.push(LogEv::Set { index: b, value: fr_from_le(&rng.bytes(32)) });
+        log.push(LogEv::Set { index: c, value: fr_from_le(&rng.bytes(32)) });
+        let mid = log.len();
+        match rng.below(3) {
+            0 => log.push(LogEv::RemoveMany { indices: vec![a, b] }),
+            1 => log.push(LogEv::RemoveMany { indices: vec![c, a, b] }),
+            _ => log.push(LogEv::Remove { index: a }),
+        }
+        let after = log.len();
+        let _ = pre;
+        steps.push(Step::Apply { node, upto: mid, shape: rng.below(3) as u8 });
+        steps.push(Step::Publish { msg, node, member, entry: rng.below(2) as u8, id: Fr::from(gen_id(rng, lim)), ext: gen_ext(rng), signal: gen_signal(rng), reader: ReadPlan::clean(), writer: WritePlan::clean() });
+        steps.push(Step::Deliver { msg, node, via: 1, alter: Alter::None, roots: Roots::Window, reader: ReadPlan::clean() });
+        msg += 1;
+        steps.push(Step::Apply { node, upto: after, shape: 1 + rng.below(2) as u8 });
+        steps.push(Step::Publish { msg, node, member, entry: rng.below(2) as u8, id: Fr::from(gen_id(rng, lim)), ext: gen_ext(rng), signal: gen_signal(rng), reader: ReadPlan::clean(), writer: WritePlan::clean() });
+        steps.push(Step::Deliver { msg, node, via: 1, alter: Alter::None, roots: Roots::Window, reader: ReadPlan::clean() });
+        steps.push(Step::Deliver { msg, node, via: 2, alter: Alter::None, roots: Roots::Exact, reader: ReadPlan::clean() });
+        msg += 1;
+    }
     // the tree moves on at node 0 only; old messages: rejected by verify_rln_proof, accepted via window
-    let upto = base_len + 1 + rng.usize_below(extra);
+    // (node 0 has applied the whole log so far; one more event moves its tree on)
+    log.push(LogEv::Set { index: 6000 + rng.usize_below(500), value: fr_from_le(&rng.bytes(32)) });
+    let upto = log.len();
+    let _ = (base_len, extra);
     steps.push(Step::Apply { node: 0, upto, shape: rng.below(3) as u8 });
     for k in 0..msg {
         steps.push(Step::Deliver { msg: k, node: 0, via: 1, alter: Alter::None, roots: Roots::Window, reader: ReadPlan::clean() });
@@ -276,6 +315,13 @@ fn gen_c02(rng: &mut Prng, seed: u64, thorough: bool) -> Trace {
                 let roots = match rng.below(3) { 0 => Roots::Window, 1 => Roots::Exact, _ => Roots::Empty };
                 steps.push(Step::Deliver { msg, node: 0, via, alter: a.clone(), roots, reader: ReadPlan::clean() });
             }
+        }
+        // non-empty root sets without the message's root whose entries are not canonical field encodings
+        let p_le = { let mut b = [0u8; 32]; let m = modulus().to_bytes_le(); b[..m.len()].copy_from_slice(&m); b.to_vec() };
+        let mut big = rng.bytes(32);
+        big[31] |= 0xc0;
+        for raw in [vec![0xffu8; 32], vec![0xffu8; 64], p_le.clone(), big.clone(), [p_le.clone(), vec![0xffu8; 32]].concat()] {
+            steps.push(Step::Deliver { msg, node: 0, via: 2, alter: Alter::None, roots: Roots::Raw(raw), reader: ReadPlan::clean() });
         }
         // verifier states: a node that never had the root
         for (via, roots) in [(1u8, Roots::Window), (2, Roots::Window), (2, Roots::Without), (2, Roots::WindowPlus)] {
